@@ -2,11 +2,12 @@
 From VLS Require Export Base.Eqb Model.Payments.
 
 (** observation after a request: accepted?, and for every hash of the universe its invoice,
-    whether a payment record exists, and the ledger row over the channels *)
-Definition pobs : Type := bool * list (option N * bool * list (N * N)).
+    whether a payment record exists and whether it carries the preimage, and the ledger row
+    over the channels *)
+Definition pobs : Type := bool * list (option N * (bool * bool) * list (N * N)).
 
-Definition observe (nch : nat) (hashes : list N) (s : pnode) : list (option N * bool * list (N * N)) :=
-  map (fun h => (inv s h, known s h, map (fun c => led s h c) (chan_ids nch))) hashes.
+Definition observe (nch : nat) (hashes : list N) (s : pnode) : list (option N * (bool * bool) * list (N * N)) :=
+  map (fun h => (inv s h, (known s h, pre s h), map (fun c => led s h c) (chan_ids nch))) hashes.
 
 Definition pay_case : Type := (nat * N * N * list N) * list pop * list pobs.
 
